@@ -11,7 +11,7 @@ import numpy as np
 from hypothesis import strategies as st
 
 RENDERINGS = ("list", "int_list", "scalar", "tuple_expr", "list_expr", "range_expr", "numpy_array", "numpy_linspace",
-              "numpy_arange", "file_npy", "file_txt", "file_csv")
+              "numpy_arange", "file_npy", "file_txt", "file_csv", "file_csv_row", "file_npy_row", "file_npy_col")
 
 # strictly positive increments; quarter-integers are exact in binary and in short decimal text
 _inc_exact = st.integers(1, 40).map(lambda k: k * 0.25)
@@ -45,7 +45,7 @@ def schedules(draw, max_n=12, renderings=RENDERINGS, exact=False):
             first, last = abs(first) + 1.0, abs(first) + 1.0 + n
             times = [float(v) for v in np.linspace(first, last, n)]
         return {"start": start, "times": times, "render": render, "first": first, "last": float(last), "n": n}
-    inc = _inc_exact if (exact or render in ("int_list", "file_txt", "file_csv")) else _inc_any
+    inc = _inc_exact if (exact or render in ("int_list", "file_txt", "file_csv", "file_csv_row")) else _inc_any
     incs = draw(st.lists(inc, min_size=n, max_size=n))
     if render == "int_list":
         incs = [float(max(1, round(i))) for i in incs]
@@ -94,6 +94,14 @@ def render_readout_kwargs(s: dict, tmpdir) -> dict:
     elif r == "file_csv":
         p = Path(tmpdir) / "times.csv"
         p.write_text("".join(f"{t!r}\n" for t in times))
+        kw["times_from_file"] = str(p)
+    elif r == "file_csv_row":  # all times on one comma-separated line
+        p = Path(tmpdir) / "times_row.csv"
+        p.write_text(",".join(f"{t!r}" for t in times) + "\n")
+        kw["times_from_file"] = str(p)
+    elif r in ("file_npy_row", "file_npy_col"):  # a 2-D array holding one row / one column
+        p = Path(tmpdir) / f"times_{r[-3:]}.npy"
+        np.save(p, np.array(times, dtype=float).reshape((1, -1) if r.endswith("row") else (-1, 1)))
         kw["times_from_file"] = str(p)
     else:
         raise ValueError(r)
